@@ -514,3 +514,40 @@ func Returns(fn *ssa.Function) []*ssa.Return {
 	}
 	return out
 }
+
+// ReturnValue returns the i-th result of a return, looking through the spill of
+// results into named-result locals that go/ssa performs in functions with defers
+// (`*r = v; rundefers; t = *r; return t`): the value last stored into the local in
+// the returning block. When no such store is in the block the load is returned.
+func ReturnValue(r *ssa.Return, i int) ssa.Value {
+	v := r.Results[i]
+	u, ok := v.(*ssa.UnOp)
+	if !ok || u.Op != token.MUL {
+		return v
+	}
+	a, ok := u.X.(*ssa.Alloc)
+	if !ok {
+		return v
+	}
+	var last ssa.Value
+	for _, ins := range r.Block().Instrs {
+		if ins == ssa.Instruction(u) {
+			break
+		}
+		if st, ok := ins.(*ssa.Store); ok && st.Addr == ssa.Value(a) {
+			last = st.Val
+		}
+	}
+	if last != nil {
+		return last
+	}
+	return v
+}
+
+// ReturnsNilError reports whether the last result of r is the nil error.
+func ReturnsNilError(r *ssa.Return) bool {
+	if len(r.Results) == 0 {
+		return false
+	}
+	return IsNilConst(ReturnValue(r, len(r.Results)-1))
+}
